@@ -19,7 +19,7 @@ SPEC = dict(
           "after each operation Addrs, GetPeerRecord and PeersWithAddrs of both books are compared with the reference; "
           "final check 4 h later; non-trivial = at least 2 mutating operations; distinct = distinct sequence of "
           "(operation kind, per-peer live address count, record present) states"),
-    probes=["reopen"],
+    probes=["reopen", "advance-not-observed"],
     real=["p2p/host/peerstore/pstoremem address book (incl. GC goroutine on the virtual clock)",
           "p2p/host/peerstore/pstoreds address book + GC (full purge and lookahead), ARC cache",
           "go-datastore MapDatastore and query engine", "core/record envelopes, core/peer records"],
